@@ -169,6 +169,7 @@ type PkgInfo struct {
 type Decl interface{}
 
 type Program struct {
+	Tiny    bool // print for the tinyfo dialect as well: a slice literal in argument position is parenthesised
 	Pkg     string
 	Imports []string // frt, slice, strings, ...
 	Decls   []Decl   // *RecordDef | *UnionDef | *FuncDef | *VarDef | *PkgInfo | *RecGroup
